@@ -116,15 +116,19 @@ def run(ctx, cases_override=None):
                                      faultops=FAULTOPS, faultks="1, 2").replace('Mods = {"all", "first"}', 'Mods = {"all"}')),
                 ("macro3-faults", cfg("MacroSpec", 3, 1, "1, 2", "0", '"P1", "P2", "P4"', "VIEW view\nPROPERTIES Prop_C17",
                                       faultops=FAULTOPS, faultks="1").replace('Mods = {"all", "first"}', 'Mods = {"all"}')),
+                ("macro-bitbucket", cfg("MacroSpec", 3, 1, "0, 1, 2, 3", "0", ALLP, "VIEW view\nPROPERTIES Prop_C17")
+                 .replace('Platforms = {"gitlab", "github"}', 'Platforms = {"bitbucket"}')),
             ]
         else:
             plan = [
                 ("micro", cfg("Spec", 2, 1, "0, 1, 2", "0", '"P1", "P2", "P4"', "VIEW view\nINVARIANTS " + INVS)),
-                ("macro2", cfg("MacroSpec", 2, 1, "1, 2", "0", ALLP, "VIEW view\nPROPERTIES Prop_C17")),
+                ("macro2", cfg("MacroSpec", 2, 0, "0, 1, 2", "0", ALLP, "VIEW view\nPROPERTIES Prop_C17")),
                 ("micro-showdup", cfg("Spec", 2, 0, "0, 1, 2", "0", '"P3", "P5", "P6"', "VIEW view\nINVARIANTS " + INVS, showdups="TRUE")),
                 ("micro-before", cfg("Spec", 2, 0, "0, 1, 2", "0", '"P4", "P7"', "VIEW view\nINVARIANTS " + INVS)),
                 ("micro-faults", cfg("Spec", 2, 1, "0, 1, 2", "0", '"P1", "P4"', "VIEW view\nINVARIANTS " + INVS,
                                      faultops=FAULTOPS, faultks="1").replace('Mods = {"all", "first"}', 'Mods = {"all"}')),
+                ("macro-bitbucket", cfg("MacroSpec", 2, 0, "0, 1, 2", "0", ALLP, "VIEW view\nPROPERTIES Prop_C17")
+                 .replace('Platforms = {"gitlab", "github"}', 'Platforms = {"bitbucket"}')),
             ]
         for name, text in plan:
             m = ctx.tlc("CommentSync", "c17_%s.cfg" % name, files={"c17_%s.cfg" % name: text}, workers=nw,
@@ -159,6 +163,9 @@ def run(ctx, cases_override=None):
         cases = sorted(uniq, key=lambda c: json.dumps(c, sort_keys=True))
     else:
         cases = cases_override
+    all_cases = cases
+    bb_cases = [c for c in all_cases if c["plat"] == "bitbucket"]
+    cases = [c for c in all_cases if c["plat"] != "bitbucket"]
     cpath = write_ndjson(ctx.path("c17_cases.ndjson"), cases)
     # ---------------------------------------------------------------- EXEC + JUDGE (in-memory platform)
     tpath = ctx.path("c17_trace.ndjson")
@@ -194,27 +201,42 @@ def run(ctx, cases_override=None):
                 v["run"], v["plat"], v["max"], "/".join(v["fails"]), v["reports"], v["var"], v["ncreates"], v["deleted"]),
                 "case": c, "via": "http", "detail": v, "trace": case_of(htr, cid)})
         drifts += ["http case %s: %s" % (cid, json.dumps(d)[:400]) for cid, d in hdrift]
+    # ---------------------------------------------------------------- EXEC + JUDGE (real BitBucketReporter over fake REST)
+    bb_rec = 0
+    if bb_cases:
+        bpath = write_ndjson(ctx.path("c17_bb_cases.ndjson"), bb_cases)
+        btrace = ctx.path("c17_bb_trace.ndjson")
+        ctx.vh("exec-c17bb", bpath, btrace, timeout=3000)
+        bviol, bdrift, bb_rec = judge(ctx, btrace, nw, "b")
+        btr = read_ndjson(btrace)
+        for cid, v in bviol:
+            v["via"] = "bb"
+            viols.append({"sig": sig_of(v), "what": "run %s of the real BitBucket reporter over REST (maxComments=%s) breaks %s: reports=%s variant=%s, %d created, deleted=%s" % (
+                v["run"], v["max"], "/".join(v["fails"]), v["reports"], v["var"], v["ncreates"], v["deleted"]),
+                "case": bb_cases[cid - 1], "via": "bb", "detail": v, "trace": case_of(btr, cid)})
+        drifts += ["bitbucket case %s: %s" % (cid, json.dumps(d)[:400]) for cid, d in bdrift]
     if leads and not viols and cases_override is None:
         raise MachineryError("model-level counterexample (%s) not reproduced on the real code: spec bug" % leads)
     # ---------------------------------------------------------------- evidence
     runs = [r for r in trace if r["ev"] == "Run"]
     nontrivial = {json.dumps([r["id"], r["run"]]) for r in runs if r["creates"] or r["deleted"] or any(c["b"] == 0 for c in r["calls"] if c["op"] == "cancreate")}
     repeated = sum(1 for c in cases for a, b in zip(c["runs"], c["runs"][1:]) if a == b)
-    sample_id = len(cases) // 2 + 1
+    sample_id = len(cases) // 2 + 1 if cases else 0
     cov = {
         "states": sum(m["distinct"] or 0 for m in mcs),
         "transitions": sum(m["generated"] or 0 for m in mcs),
         "model_level_leads": leads,
-        "traces_validated_against_impl": len(cases) + len(http_cases),
+        "traces_validated_against_impl": len(cases) + len(http_cases) + len(bb_cases),
+        "bitbucket_cases": len(bb_cases), "bitbucket_records": bb_rec,
         "samples": [{"case": cases[sample_id - 1], "trace": case_of(trace, sample_id)[:3]}] if cases else [],
-        "evaluations": len(runs) + max(0, http_rec - len(http_cases)),
+        "evaluations": len(runs) + max(0, http_rec - len(http_cases)) + max(0, bb_rec - len(bb_cases)),
         "distinct_nontrivial": len(nontrivial),
         "rule": "GEN: TLC simulation of GenSpec (platform x maxComments 0..3 x body stripping x <=3 seeded comments "
                 "(matching, stale, foreign, twins) x REST padding x show-duplicates x 4 runs over subsets of 4 (6 with show-duplicates) problems x 4 line variants, every second run "
                 "repeats its predecessor, every third with one failing platform call); evaluations = reporting runs judged; non-trivial = runs in which Submit created, "
                 "deleted or deferred at least one comment",
         "exhaustive": False,
-        "gen_cases": len(cases), "http_cases": len(http_cases), "trace_records": nrec + http_rec,
+        "gen_cases": len(all_cases), "http_cases": len(http_cases), "trace_records": nrec + http_rec + bb_rec,
         "runs_in_memory": len(runs), "runs_repeating_previous_input": repeated,
         "mc_runs": [{"tag": m["tag"], "states": m["distinct"], "transitions": m["generated"], "wall_s": m["wall_s"]} for m in mcs],
     }
@@ -224,6 +246,7 @@ def run(ctx, cases_override=None):
         "real reports come from the in-process lint pipeline on two generated rule files; real reporter.Submit runs against an "
         "in-memory platform whose IsEqual/CanCreate/CanDelete are the real GitLabReporter/GithubReporter methods (hook H1)",
         "a sample of the cases is repeated with the real GitLabReporter and GithubReporter talking REST to a fake server keeping the same store",
+        "BitBucket: a second reconciliation machine (limit to maxComments, prune, add; budget per pull request) model-checked run-at-once and bound to the real BitBucketReporter.Submit over a fake BitBucket Server REST API that stores and returns comments as posted; its pending comments are observed by a dry run against an empty server; no removed-rule problem, no platform failures, no replies there",
         "a comment 'carries' a problem when its body contains the problem's summary line; comment bodies are compared modulo surrounding newlines",
         "files are part of the pull request diff; one problem is about a rule the pull request removes (AnchorBefore), for it only file and text of the comment are judged, not the line",
         "platform failures: the k-th List/Create/Delete/Summary call of a run fails (in memory: error value; REST: HTTP 403 on the k-th listing/POST/DELETE); runs in which a call failed only owe NoTwin, ForeignUntouched, KeepsCovered, Accounting, the budget bound and a reported error",
@@ -232,5 +255,6 @@ def run(ctx, cases_override=None):
 
 
 def replay(ctx, path):
+    os.environ["VERIF_NO_EVIDENCE"] = "1"     # a replay runs no model checking: it must not replace the evidence of a full run
     v = json.load(open(path))
     return run(ctx, cases_override=[v["case"]])
